@@ -11,11 +11,11 @@ import numpy as np
 from .common import Driver, I
 
 RULE = ("date spans: single value or [start, stop]; ISO strings with ' ' or 'T', date / datetime objects, datetime64 with "
-        "units D,h,m,s,ms,us; spans zero, positive, reversed, sub-second, not divisible by num-1; num in {1,2,3,4,7,40}; "
+        "units Y,M,W,D,h,m,s,ms,us,ns (also as the strings '2000', '2000-03'); spans zero, positive, reversed, sub-second, not divisible by num-1; num in {1,2,3,4,7,40}; "
         "tables of 1..5 interleaved groups of mixed types. Non-trivial: num >= 1.")
 ASSUMPTIONS = ["numpy datetime64 parsing and ISO rendering are trusted (rendering monotonicity is validated on every run)"]
 SITE = "ladim_plugins/release/makrel.py::date_range"
-UNITS = ["D", "h", "m", "s", "ms", "us"]
+UNITS = ["D", "h", "m", "s", "ms", "us", "Y", "M", "W", "ns"]
 TICKS = {"D": None, "h": None, "m": None, "s": 1, "ms": 1000, "us": 1000000}
 
 
@@ -54,7 +54,7 @@ def gen_span(rng):
 
 def to_ticks(na, nb):
     """finer unit of (start, stop, seconds) as ticks-per-second and integer ticks"""
-    order = ["D", "h", "m", "s", "ms", "us", "ns"]
+    order = ["Y", "M", "W", "D", "h", "m", "s", "ms", "us", "ns"]
     ua = np.datetime_data(na.dtype)[0]; ub = np.datetime_data(nb.dtype)[0]
     fin = max([ua, ub, "s"], key=order.index)
     per = {"s": 1, "ms": 1000, "us": 1000000, "ns": 1000000000}[fin]
